@@ -358,7 +358,7 @@ PROPS = {
         note=ENVNOTE + '; Vec/VecDeque specs of vstd; core::mem::replace assume_specification; std retain semantics assumed (visit order, kept iff true)',
         explanation='queue FIFO proved (Verus, unbounded); tracker prepare/start/end proved (Verus, unbounded; start restated by Kani per length L<=3/5); lemma L1 lifts the start contract to per-system FIFO for unbounded histories; runner replay step/order proved at function level (Verus)'),
     'C13': dict(category='other', design_ref='DESIGN.md 5/C13',
-        text='Verus proves on verbatim text that SystemCommandStorage::take hands out exactly the stored callback and leaves None (so a second take while it is out yields None), and insert stores exactly its argument. Kani discharges on the real RawCallbackSystem / CallbackSystem::run_with_cleanup, with a stub System carrying its own run and initialize counters, that over 2-3 consecutive runs `initialize` happens exactly once, every run is executed by the SAME instance (its private counter continues) and the system is stored back as Initialized after every run, for exclusive and non-exclusive systems. In syscommand_runner (Verus, verbatim) the callback is taken only on the run path (abort / postpone paths leave the storage alone) and, after the run and its garbage collection, the storage component of a target that still exists holds exactly THE callback that just ran, as the run left it (program-point obligation F); a target that lost its storage component is despawned, a target that is gone gets nothing back. Not covered: an exit added between the take and the reinsertion (no clause of the contract is attached to such a path), and persistence across trees (opaque effects in between).',
+        text='Verus proves on verbatim text that SystemCommandStorage::take hands out exactly the stored callback and leaves None (so a second take while it is out yields None), and insert stores exactly its argument. Kani discharges on the real RawCallbackSystem / CallbackSystem::run_with_cleanup, with a stub System carrying its own run and initialize counters, that over 2-3 consecutive runs `initialize` happens exactly once, every run is executed by the SAME instance (its private counter continues) and the system is stored back as Initialized after every run, for exclusive and non-exclusive systems. In syscommand_runner (Verus, verbatim) the callback is taken only on the run path (abort / postpone paths leave the storage alone) and, after the run and its garbage collection, the storage component of a target that still exists holds exactly THE callback that just ran, as the run left it (program-point obligation F); a target that lost its storage component is despawned, a target that is gone gets nothing back. The runner never returns while it holds a callback it took: every exit of the function - including exits a change adds - carries the ghost-state obligation G, so the system\'s persistent state cannot be dropped on an early return. Not covered: persistence across trees (opaque effects in between).',
         note=ENVNOTE + '; stub System = assumed contract of bevy System; Box<dyn FnMut> callbacks are opaque values in the Verus unit',
         explanation='storage take/insert and the runner\'s take-on-run-path / reinsert-the-same-callback obligations proved (Verus); one initialisation and instance identity over bounded run sequences (Kani)'),
     'C14': dict(category='other', design_ref='DESIGN.md 5/C14',
